@@ -128,6 +128,11 @@ pub enum Op {
     RenderText,
     RenderSvg(Vec<SvgOp>),
     RenderPng(Vec<SvgOp>),
+    /// setter call on the renderer instances that live as long as the history (one SvgBuilder, one ImageBuilder)
+    PSet(SvgOp),
+    /// render the current QR code with the long-lived SvgBuilder / ImageBuilder
+    PRenderSvg,
+    PRenderPng,
 }
 
 #[derive(Clone, Debug)]
@@ -147,6 +152,9 @@ fn op_json(op: &Op) -> Value {
         Op::RenderText => json!("render_text"),
         Op::RenderSvg(p) => json!({"render_svg": p.iter().map(svg_op_json).collect::<Vec<_>>()}),
         Op::RenderPng(p) => json!({"render_png": p.iter().map(svg_op_json).collect::<Vec<_>>()}),
+        Op::PSet(o) => json!({"p_set": svg_op_json(o)}),
+        Op::PRenderSvg => json!("p_render_svg"),
+        Op::PRenderPng => json!("p_render_png"),
     }
 }
 
@@ -156,6 +164,15 @@ fn op_from(v: &Value) -> Option<Op> {
     }
     if v.as_str() == Some("render_text") {
         return Some(Op::RenderText);
+    }
+    if v.as_str() == Some("p_render_svg") {
+        return Some(Op::PRenderSvg);
+    }
+    if v.as_str() == Some("p_render_png") {
+        return Some(Op::PRenderPng);
+    }
+    if let Some(o) = v.get("p_set") {
+        return Some(Op::PSet(svg_op_from(o)?));
     }
     if let Some(m) = v.get("set_mode").and_then(|x| x.as_str()) {
         return Some(Op::SetMode(match m {
@@ -444,6 +461,12 @@ pub fn check_history(h: &History, obs: &mut Obs) -> Result<(), Fail> {
     let mut model = Opts::default();
     let mut last: Option<Box<QRCode>> = None;
     let mut last_case: Option<BuildCase> = None;
+    // long-lived renderer instances and the setter calls they have received so far
+    let mut psvg = SvgBuilder::default();
+    let mut ppng = ImageBuilder::default();
+    let mut pprog: Vec<SvgOp> = Vec::new();
+    let mut pprog_png: Vec<SvgOp> = Vec::new();
+    let mut prenders = 0u64;
     let mut renders = 0u64;
     let mut builds = 0;
     let mut overwritten = 0;
@@ -580,6 +603,67 @@ pub fn check_history(h: &History, obs: &mut Obs) -> Result<(), Fail> {
                         }
                     }
                     obs.label("render:svg");
+                }
+            }
+            Op::PSet(o) => {
+                pc("SvgBuilder setter", || apply_svg_op(&mut psvg, o))?;
+                pprog.push(o.clone());
+                if png_safe(o) {
+                    pc("ImageBuilder setter", || apply_svg_op(&mut ppng, o))?;
+                    pprog_png.push(o.clone());
+                }
+            }
+            Op::PRenderSvg => {
+                if let Some(q) = &last {
+                    prenders += 1;
+                    let s1 = pc("SvgBuilder::to_str", || psvg.to_str(q))?;
+                    // a renderer that has never rendered anything, given the same setter calls in the same order
+                    let fresh = pc("SvgBuilder", || {
+                        let mut b = SvgBuilder::default();
+                        for op in &pprog {
+                            apply_svg_op(&mut b, op);
+                        }
+                        b.to_str(q)
+                    })?;
+                    ensure!(
+                        s1 == fresh,
+                        "renderer_history_dependent:svg",
+                        "op {}: a long-lived SvgBuilder (render #{} of this history) gives {} bytes, a fresh SvgBuilder with the same setter calls gives {} bytes for the same QR code (setter calls {}; history {})",
+                        i, prenders, s1.len(), fresh.len(), Value::Array(pprog.iter().map(svg_op_json).collect()), hist_json(h)
+                    );
+                    if let Some(lc) = &last_case {
+                        let vals: Vec<bool> = q.data[..q.size * q.size].iter().map(|m| m.value()).collect();
+                        let cell = std::cell::RefCell::new(crate::engine::LocalStats::default());
+                        let mut scratch = Obs::new(&cell);
+                        if super::c12::check_svg(&s1, &vals, q.size, &fold_svg(&pprog), &mut scratch).is_err() || (hash_bytes(&h.input) + prenders) % 8 == 0 {
+                            if cold_render_verdict(lc, "svg", &pprog, hash_bytes(s1.as_bytes()), &format!("op {}", i))? {
+                                obs.label("cold_process_consulted:render");
+                            }
+                        }
+                    }
+                    obs.label("render:svg_long_lived_builder");
+                }
+            }
+            Op::PRenderPng => {
+                if let Some(q) = &last {
+                    if q.size <= 57 {
+                        prenders += 1;
+                        let p1 = pc("ImageBuilder::to_bytes", || ppng.to_bytes(q).map_err(|e| e.to_string()))?;
+                        let fresh = pc("ImageBuilder", || {
+                            let mut b = ImageBuilder::default();
+                            for op in &pprog_png {
+                                apply_svg_op(&mut b, op);
+                            }
+                            b.to_bytes(q).map_err(|e| e.to_string())
+                        })?;
+                        ensure!(
+                            p1 == fresh,
+                            "renderer_history_dependent:png",
+                            "op {}: a long-lived ImageBuilder (render #{} of this history) and a fresh ImageBuilder with the same setter calls give different PNGs for the same QR code (setter calls {}; history {})",
+                            i, prenders, Value::Array(pprog_png.iter().map(svg_op_json).collect()), hist_json(h)
+                        );
+                        obs.label("render:png_long_lived_builder");
+                    }
                 }
             }
             Op::RenderPng(prog) => {
@@ -786,6 +870,31 @@ fn svg_op() -> BoxedStrategy<SvgOp> {
     .boxed()
 }
 
+fn png_safe(o: &SvgOp) -> bool {
+    match o {
+        SvgOp::Margin(_) => true,
+        SvgOp::ModuleColor(c) | SvgOp::Background(c) => matches!(c, ColorSpec::Rgb(_)),
+        SvgOp::Shape(_, c) => c.as_ref().map(|c| matches!(c, ColorSpec::Rgb(_))).unwrap_or(true),
+        _ => false,
+    }
+}
+
+/// setter calls for the long-lived renderers: small margins (equal canvas widths for different versions are then
+/// frequent), image settings, colours, shapes
+fn p_op() -> BoxedStrategy<SvgOp> {
+    prop_oneof![
+        4 => (0usize..=8).prop_map(SvgOp::Margin),
+        2 => prop_oneof![Just("logo.png".to_string()), Just("data:image/png;base64,AAAA".to_string())].prop_map(SvgOp::Image),
+        1 => (0usize..3).prop_map(SvgOp::ImageBgShape),
+        1 => rgb_color().prop_map(SvgOp::ImageBgColor),
+        1 => rgb_color().prop_map(SvgOp::ModuleColor),
+        1 => rgb_color().prop_map(SvgOp::Background),
+        1 => (0usize..6).prop_map(|s| SvgOp::Shape(s, None)),
+        1 => (2u32..12).prop_map(|x| SvgOp::ImageSize(x as f64 / 2.0)),
+    ]
+    .boxed()
+}
+
 /// PNG programs avoid external image references and CSS colour names (the rasteriser would have to resolve them)
 fn png_op() -> BoxedStrategy<SvgOp> {
     prop_oneof![
@@ -854,8 +963,11 @@ pub fn history_strategy() -> BoxedStrategy<History> {
                     1 => Just(Op::RenderText),
                     2 => vec(svg_op(), 0..8).prop_map(Op::RenderSvg),
                     1 => vec(png_op(), 0..5).prop_map(Op::RenderPng),
+                    3 => p_op().prop_map(Op::PSet),
+                    3 => Just(Op::PRenderSvg),
+                    1 => Just(Op::PRenderPng),
                 ];
-                vec(op, 0..24).prop_map(move |ops| History { input: input.clone(), ops })
+                vec(op, 0..32).prop_map(move |ops| History { input: input.clone(), ops })
             })
         })
         .boxed()
